@@ -799,7 +799,8 @@ class FnAnalysis:
                 s.returns.add(self._generalise(r))
                 if is_fresh(r) and not r[1]:
                     for el in self.elems.get(r[0], ()):
-                        if el[0] not in ('TUPLE', 'Imm') and self.H.kind_of(el, self) in ('imm', 'str') and not is_fresh(el):
+                        if el[0] not in ('TUPLE', 'Imm') and self.H.kind_of(el, self) in ('imm', 'str') and not is_fresh(el) \
+                                and not (set(el[1]) & {self.ro.START, self.ro.STOP}):
                             s.ret_elems.add(IMM)
                         else:
                             s.ret_elems.add(self._generalise(el))
